@@ -324,3 +324,5 @@ func NoCrash()          {}
 func GuardedBy(m interface{}, mu interface{}) {}
 func Unguard()                               {}
 func LocksHeld() int                         { return 0 }
+
+func URLParts(uri, scheme, user string, hasUser bool, hostport, rest string) {}
